@@ -173,10 +173,12 @@ def words_of(text):
     return [t for t in TOKEN.findall(text) if t not in ("*", "/") and not t.isspace() and not t.startswith("^")]
 
 
-def cast_matrix(V, rng, tier):
-    """Every unit (its shortest name, and every name of at most two letters) cast to one representative target of every dimension
-    that occurs in the vocabulary. Returns [(query, source names, target names)] with the names as the words read alone: what a word
-    means must not depend on what it is cast to."""
+def cast_targets(V):
+    """[(text, names)]: one representative unit of every dimension of the vocabulary plus compound targets (accelerations, densities ...)."""
+    return _cast_words_targets(V)[2]
+
+
+def _cast_words_targets(V):
     words = []
     for v in sorted(V.names):
         if V.variant_unit.get(v) in V.offset_units:
@@ -194,9 +196,21 @@ def cast_matrix(V, rng, tier):
         key = tuple(sorted(V.dims(na).items()))
         if key not in reps or (len(w), w) < (len(reps[key]), reps[key]):
             reps[key] = w
-    extra = ["m/s^2", "N/kg", "km/hr^2", "ft/s^2", "gforce", "m/s", "kg*m/s^2", "m^2", "m^3", "1/s", "kg/m^3", "J/kg", "W/m^2"]
+    extra = CAST_EXTRA
     eread = dict(zip(extra, impl_units(extra)))
     targets = [(t, read[t]) for t in sorted(reps.values())] + [(t, eread[t]) for t in extra if eread.get(t)]
+    return words, read, targets
+
+
+CAST_EXTRA = ["m/s^2", "N/kg", "km/hr^2", "ft/s^2", "gforce", "m/s", "kg*m/s^2", "m^2", "m^3", "1/s", "kg/m^3", "J/kg", "W/m^2"]
+
+
+def cast_matrix(V, rng, tier):
+    """Every unit (its shortest name, and every name of at most two letters) cast to one representative target of every dimension
+    that occurs in the vocabulary. Returns [(query, source names, target names)] with the names as the words read alone: what a word
+    means must not depend on what it is cast to."""
+    words, read, targets = _cast_words_targets(V)
+    extra = CAST_EXTRA
     out = []
     for w in words:
         na = read.get(w)
